@@ -11,6 +11,7 @@ import (
 	"strings"
 	"sync"
 	"time"
+	"unicode/utf8"
 
 	"vsim/plan"
 )
@@ -27,6 +28,9 @@ type knownFinding struct {
 	WhereRe string `json:"where_re,omitempty"` // regexp over Where
 	DetailRe string `json:"detail_re,omitempty"`
 	DocRe   string `json:"doc_re,omitempty"` // regexp over the bytes of the failing stream document / step documents
+	// DocPred: a predicate over the bytes of the failing document(s):
+	// "has_nul" (contains a NUL byte), "invalid_utf8" (contains ill-formed UTF-8).
+	DocPred string `json:"doc_pred,omitempty"`
 	Variant string `json:"variant,omitempty"`
 }
 
@@ -75,27 +79,55 @@ func planDocs(p *plan.Plan) string {
 }
 
 func (kf *knownFile) match(prop string, rp *Replay) *knownFinding {
+	return kf.matchV(prop, rp.Variant, &rp.Violation, rp.Plan)
+}
+
+// matchV matches one violation; for stream violations the failing document is
+// the one of the concrete case attached to the violation.
+func (kf *knownFile) matchV(prop, variant string, v *plan.Violation, p *plan.Plan) *knownFinding {
+	docs := func() string {
+		if v.Case != nil {
+			return planDocs(&plan.Plan{Stream: []plan.StreamFamily{*v.Case}})
+		}
+		if p != nil {
+			return planDocs(p)
+		}
+		return ""
+	}
 	for i := range kf.Known {
 		k := &kf.Known[i]
 		if k.Property != prop {
 			continue
 		}
-		if k.Oracle != "" && k.Oracle != rp.Violation.Oracle {
+		if k.Oracle != "" && k.Oracle != v.Oracle {
 			continue
 		}
-		if k.Sig != "" && k.Sig != rp.Violation.Sig {
+		if k.Sig != "" && k.Sig != v.Sig {
 			continue
 		}
-		if k.Variant != "" && k.Variant != rp.Variant {
+		if k.Variant != "" && k.Variant != variant {
 			continue
 		}
-		if k.WhereRe != "" && !regexp.MustCompile(k.WhereRe).MatchString(rp.Violation.Where) {
+		if k.WhereRe != "" && !regexp.MustCompile(k.WhereRe).MatchString(v.Where) {
 			continue
 		}
-		if k.DetailRe != "" && !regexp.MustCompile(k.DetailRe).MatchString(rp.Violation.Detail) {
+		if k.DetailRe != "" && !regexp.MustCompile(k.DetailRe).MatchString(v.Detail) {
 			continue
 		}
-		if k.DocRe != "" && (rp.Plan == nil || !regexp.MustCompile(k.DocRe).MatchString(planDocs(rp.Plan))) {
+		if k.DocRe != "" && !regexp.MustCompile(k.DocRe).MatchString(docs()) {
+			continue
+		}
+		switch k.DocPred {
+		case "":
+		case "has_nul":
+			if !strings.Contains(docs(), "\x00") {
+				continue
+			}
+		case "invalid_utf8":
+			if utf8.ValidString(docs()) {
+				continue
+			}
+		default:
 			continue
 		}
 		return k
